@@ -33,7 +33,10 @@ type TransSpec struct {
 	Globals    []string // package-level variables treated as explicit state: read -> extra parameter, written -> extra result
 	WrapSigned bool     // int8/16/32/64 wrap around (swrap N) instead of being unbounded; `int` stays unbounded
 	Frags      []FragSpec
-	T15        T15Spec // [ext:T15] (gen/trans_ext15.go) byte-sequence type parameters, real imports, error kinds, out-parameters
+	InPlace    bool     // [ext:T07] byte-buffer code: slice parameters written in place are handed back, bytestring type parameters, package-level tables, range over a slice written in place (gen/trans_ext07.go)
+	Std        []string // [ext:T07] standard-library functions translated through their models in Lib/GoSemStd.v (gen/trans_ext07.go)
+	Identity   []string // [ext:T07] functions of the package translated as the identity on byte lists (unsafe string <-> []byte casts)
+	T15        T15Spec  // [ext:T15] (gen/trans_ext15.go) byte-sequence type parameters, real imports, error kinds, out-parameters
 	// [ext:T08] (gen/trans_ext08.go) -------------------------------------------------------------------------------
 	Stubs         map[string]string // import path -> declarations (Go source) of a foreign package, as far as the code uses it
 	ModuleImports bool              // packages of the translated module are type-checked from their source in the tree
@@ -150,6 +153,7 @@ type funcInfo struct {
 	greads, gwrites map[*globalInfo]bool // package-level state read / written (directly or through calls)
 	ignoredRecv     bool                 // a receiver of an untranslatable type that the body never mentions
 	frag            *fragInfo            // a loop fragment of a function instead of a whole function
+	outs07          []int                // [ext:T07] indices of the slice parameters written in place: their new contents are returned
 	nExtra03        int                  // [ext:T03] extra parameters (memory read through unsafe.Pointer)
 	// [ext:T08]
 	foreign bool  // calls a foreign function (directly or through calls): takes `ext' : Foreign`
@@ -171,6 +175,7 @@ type Translator struct {
 	global  map[string]bool // Coq names that locals must not shadow
 	seq     *seqState       // [seq] sequential reading of atomics, places, timed tails (trans_seq.go)
 	ext20                   // [ext:T20] state of gen/trans_ext20.go
+	ext07                   // [ext:T07] state of gen/trans_ext07.go
 	ext03                   // [ext:T03] state of gen/trans_ext03.go
 	ext08                   // [ext:T08] state of gen/trans_ext08.go
 	inOut   bool            // [func] TransSpec.InOut
@@ -187,6 +192,9 @@ func (stubImporter) Import(path string) (*types.Package, error) {
 		return types.Unsafe, nil
 	}
 	if p := import08(path); p != nil { // [ext:T08] TransSpec.Stubs, packages of the translated module
+		return p, nil
+	}
+	if p := stubPackage07(path); p != nil { // [ext:T07] typez.StrOrBytes, strconv.AppendUint, unicode/utf8, unicode/utf16: typed stubs
 		return p, nil
 	}
 	p := types.NewPackage(path, filepath.Base(path))
@@ -256,6 +264,9 @@ func (t *Translator) typeOf(ty types.Type, n ast.Node) gtype {
 			return gtype{k: kSlice, isArr: true, arr: x.Len()}
 		}
 	case *types.TypeParam:
+		if g, ok := t.typeParam07(x); ok { // [ext:T07] T constrained to ~string | ~[]byte: a byte list
+			return g
+		}
 		if g, ok := t.typeParam15(x); ok { // [ext:T15] T ~string | ~[]byte -> its byte-list instantiation
 			return g
 		}
@@ -363,6 +374,7 @@ func Translate(repo string, spec TransSpec) (out string, err error) {
 	}
 	t.seqInit(spec, tpkg, p.Files) // [seq]
 	t.setup20(p, tpkg, spec)       // [ext:T20]
+	t.setup07(spec)                // [ext:T07]
 	t.setup08(spec)                // [ext:T08]
 	t.setup15(spec)                // [ext:T15]
 	for _, f := range p.Files {
@@ -448,8 +460,10 @@ func Translate(repo string, spec TransSpec) (out string, err error) {
 		// proofs unfold generated definitions through this hint database, so that a helper function that appears
 		// in the source later is unfolded without touching the proof scripts
 		fmt.Fprintf(&fb, "#[export] Hint Unfold %s : go2v.\n", fi.name)
+		fb.WriteString(t.auxHint07(fi)) // [ext:T07] helpers the area does not list: a second database, so that proofs can open them and nothing else
 	}
 	sb.WriteString(t.consts20())
+	sb.WriteString(t.consts07()) // [ext:T07] package-level tables
 	sb.WriteString(t.record08()) // [ext:T08] Record Foreign
 	sb.WriteString(t.consts15()) // [ext:T15] error kinds
 	t.shape15()                  // [ext:T15] the shape the area's proof scripts cover (else: degrade)
@@ -626,6 +640,7 @@ func (t *Translator) assigned(n ast.Node, set map[types.Object]bool) {
 	}
 	ast.Inspect(n, func(m ast.Node) bool {
 		t.seqAssigned(m, set) // [seq] writes through h := &s[i] and atomic stores
+		t.assigned07(m, set)  // [ext:T07] slice arguments written in place by the callee
 		t.assigned08(m, set)  // [ext:T08] slice arguments a foreign function writes
 		switch x := m.(type) {
 		case *ast.AssignStmt:
@@ -708,12 +723,12 @@ func (t *Translator) analyse() {
 			seen[fi] = true
 			ast.Inspect(t.body(fi), func(m ast.Node) bool { // [seq] t.body: without a timed tail
 				if c, ok := m.(*ast.CallExpr); ok {
-					if fn, _ := t.calleeOf(c); fn != nil {
+					if fn, _ := t.calleeOf(c); fn != nil && !t.identCall07(c) { // [ext:T07] not: TransSpec.Identity
 						fi.callees[t.funcFor(fn, c)] = true
 					}
 				}
 				if id, ok := m.(*ast.Ident); ok { // a package function used as a value (trans_func.go)
-					if fn := t.funcValueRef(id); fn != nil {
+					if fn := t.funcValueRef(id); fn != nil && !t.ident07[fn.Name()] { // [ext:T07] not: TransSpec.Identity
 						fi.callees[t.funcFor(fn, id)] = true
 					}
 				}
@@ -739,6 +754,9 @@ func (t *Translator) analyse() {
 				}
 			}
 			if t.globals20(fi) { // [ext:T20]
+				changed = true
+			}
+			if t.outParams07(fi) { // [ext:T07]
 				changed = true
 			}
 			if t.outs15(fi) { // [ext:T15] slice parameters written in place
